@@ -67,7 +67,14 @@ def run(tier):
     tr2 = os.path.join(w, "inc.ndjson")
     # bases: lopdf's own saves, plus Producer files (1-2 revisions; compressed xref streams, object streams, XRef
     # stream objects below the highest number, junk before the header)
-    bases = [f for f in files if f["nrevs"] <= 2][:40 if tier == "quick" else 600]
+    nb = 40 if tier == "quick" else 600
+    bases = [f for f in files if f["nrevs"] <= 2 and not f.get("hybrid")][:nb - nb // 4]
+    # ... a quarter of them hybrid-reference files: an update of an update of such a file must not bring the base's
+    # XRefStm back (the loaded trailer is what new_from_prev clones)
+    hb = [f for f in files if f["nrevs"] <= 2 and f.get("hybrid")][:nb // 4]
+    if len(hb) < 5:
+        raise vlib.ToolError("vacuous: only %d hybrid-reference bases for the IncrementalDocument rounds" % len(hb))
+    bases += hb
     bp = os.path.join(w, "bases.ndjson")
     write_ndjson(bp, bases)
     chk.extra["producer_bases"] = dict(collections.Counter("%s/%s%s" % (f["xref"], f["sfilter"], "/selfgap" if f.get("selfgap") else "") for f in bases))
